@@ -31,7 +31,33 @@
 #include "thread.h"
 #include <algorithm>
 
+extern "C" { extern void (*iphreeqc_verif_cl1_hook)(int stage, int k, int l, int m, int n, int q_dim, const double *q, const double *x, const double *res, int kode, double toler, double error, int check); }
+
 namespace vc {
+
+// recorder for the L1 problems handed to cl1 (hook in cl1.cpp): binary records, little endian
+//  'P' k l m n check (int32 x5) toler (f64) matrix (k+l+m rows x n+1, f64) x[n] res[k+l+m]     - before the call
+//  'R' kode (int32) error (f64) x[n] res[k+l+m]                                                   - after the call
+static FILE *cl1_file = 0;
+static int cl1_n = 0, cl1_klm = 0;
+static long cl1_budget = 0;
+static void cl1_hook(int stage, int k, int l, int m, int n, int q_dim, const double *q, const double *x, const double *res, int kode, double toler, double error, int check) {
+	if (!cl1_file) return;
+	if (stage == 0) {
+		if (cl1_budget <= 0) { cl1_n = -1; return; }
+		cl1_budget--;
+		int32_t h[5] = { k, l, m, n, check };
+		fputc('P', cl1_file); fwrite(h, sizeof h, 1, cl1_file); fwrite(&toler, 8, 1, cl1_file);
+		for (int i = 0; i < k + l + m; i++) fwrite(q + (size_t)i * q_dim, 8, (size_t)n + 1, cl1_file);
+		fwrite(x, 8, n, cl1_file); fwrite(res, 8, (size_t)k + l + m, cl1_file);
+		cl1_n = n; cl1_klm = k + l + m;
+	} else {
+		if (cl1_n < 0) return;
+		int32_t kd = kode;
+		fputc('R', cl1_file); fwrite(&kd, 4, 1, cl1_file); fwrite(&error, 8, 1, cl1_file);
+		fwrite(x, 8, cl1_n, cl1_file); fwrite(res, 8, cl1_klm, cl1_file);
+	}
+}
 
 static inline double now_s() {
 	using namespace std::chrono;
@@ -506,6 +532,12 @@ public:
 			return "\"r\":" + jnum(I.id);
 		}
 		if (op == "bind") { Inst I; I.id = atoi(a.at(0).c_str()); I.api = 'c'; I.obj = 0; inst[name] = I; return "\"r\":" + jnum(I.id); }
+		if (op == "cl1log") {   // cl1log PATH [max problems]: record every cl1 problem and result from now on; "cl1log -" stops
+			if (cl1_file) { fclose(cl1_file); cl1_file = 0; }
+			iphreeqc_verif_cl1_hook = 0;
+			if (name != "-") { cl1_file = fopen(name.c_str(), "wb"); cl1_budget = a.empty() ? 2000 : atol(a[0].c_str()); iphreeqc_verif_cl1_hook = cl1_hook; }
+			return "\"r\":" + jnum(cl1_file != 0);
+		}
 		if (op == "rm") { return "\"r\":" + jnum(unlink(name.c_str())); }
 		if (op == "mkdir") { return "\"r\":" + jnum(mkdir(name.c_str(), 0777)); }
 		if (op == "readfile") { return "\"file\":" + file_json(name, true); }
